@@ -4,6 +4,9 @@ manifest stays valid while checks are added)."""
 import json, os
 ROOT = os.path.dirname(os.path.abspath(__file__))
 CHECKS = {
+ "C03": dict(level="fault_enumeration", technique="exhaustive permutation and sub-multiset enumeration of small sessions + sampled reorder/duplicate/stale/payload-fault histories; safety automaton at the writer boundary (Complete => exact bytes, single terminal call)",
+     text="All orderings (n! for n<=8 quick / 10 thorough packets incl. the FDT) and all sub-multisets with multiplicity <=2 of a catalogue of small sessions, plus seeded shuffles, bounded-displacement reorderings, stale replays and cross-transfer/carousel mixes of larger sessions with receive-once on/off, and bit-flip/truncate/extend/swap payload faults on MD5-announced objects are pushed into the real receiver; the monitoring writer decides byte equality at every Complete. Complete for the enumerated shapes, sampled beyond.",
+     note="trusted: monitoring writer, original object bytes; liveness not demanded", ref="DESIGN.md §5 C03"),
  "C02": dict(level="fault_enumeration", technique="exhaustive loss-subset enumeration of small sessions + threshold-biased sampled loss; decodability predicate from the delivered list (reference partition) vs monitoring-writer outcome",
      text="For every small-session shape of the catalogue every subset of the object packets (2^n, n<=13 quick / 16 thorough) is delivered in order, each also with a duplicated packet; larger random sessions get losses tuned to k-1/k/k+1 symbols per block, bursts and lost FDT copies. Whenever the delivered list satisfies the property's precondition (computed independently) the writer must complete with exact bytes. Complete for the enumerated shapes, sampled beyond.",
      note="trusted: independent decoder, reference partition, FDT-before-object precondition", ref="DESIGN.md §5 C02"),
